@@ -43,6 +43,8 @@ type Response struct {
 }
 
 type Request struct {
+	Cycle  int
+	Doc    map[string]any // the parameter document of a valid request (for building variants of it)
 	ID     int
 	Method string
 	Kind   string
@@ -61,6 +63,8 @@ type Request struct {
 
 // ClientConn is one client connection script.
 type ClientConn struct {
+	// Cycle: the start/stop cycle (0-based) during which this connection is made
+	Cycle     int
 	ID        int
 	Addr      string
 	Reqs      []*Request
@@ -115,6 +119,8 @@ type World struct {
 	// request's header block reached the server, i.e. while its handler is running.
 	StopAfterBegun int
 	begunStep      int
+	cycleSeen      int
+	cycleStart     int
 	// operator state (written by the operator goroutine between yields, read by the scheduler at quiescence)
 	op struct {
 		cycle          int
@@ -144,6 +150,7 @@ type World struct {
 }
 
 type Scrape struct {
+	Cycle    int
 	Step     int
 	Totals   map[string]float64 // "method/code" -> value for endpoint_pattern="/prove"
 	InFlight float64
@@ -162,6 +169,7 @@ func (w *World) AddConn(c *ClientConn) *ClientConn {
 	w.Conns = append(w.Conns, c)
 	for _, r := range c.Reqs {
 		r.ID = len(w.reqs)
+		r.Cycle = c.Cycle
 		w.reqs = append(w.reqs, r)
 	}
 	return c
@@ -226,8 +234,24 @@ func (w *World) operator(mode string) {
 	w.op.finished.Store(true)
 }
 
+func (w *World) curCycle() int { return int(w.op.cyclesDone.Load()) }
+
+// handlersActive: some task that entered through the wrapped mux is still parked (a handler has not
+// finished), judged by the file of the task's first yield.
+func (w *World) handlersActive() bool {
+	for name := range w.Sim.ParkedAt() {
+		if strings.HasPrefix(name, "server/wrapped_http/") {
+			return true
+		}
+	}
+	return false
+}
+
 func (w *World) clientWorkDone() bool {
 	for _, c := range w.Conns {
+		if c.Cycle != w.curCycle() {
+			continue
+		}
 		if c.refused || c.vanished {
 			continue
 		}
@@ -242,8 +266,11 @@ func (w *World) clientWorkDone() bool {
 }
 
 func (w *World) othersSettled() bool {
+	if w.handlersActive() {
+		return false
+	}
 	for _, c := range w.Conns {
-		if c.AfterOthers {
+		if c.AfterOthers || c.Cycle != w.curCycle() {
 			continue
 		}
 		if !c.dialed {
@@ -260,6 +287,9 @@ func (w *World) othersSettled() bool {
 func (w *World) Begun(metrics bool) int {
 	n := 0
 	for _, c := range w.Conns {
+		if c.Cycle != w.curCycle() {
+			continue
+		}
 		for i, r := range c.Reqs {
 			if r.Metrics == metrics && c.HeadersDelivered(i, c.Delivered) {
 				n++
@@ -281,7 +311,14 @@ func (w *World) operatorActions() []Action {
 	if w.op.finished.Load() || !w.op.running.Load() || w.op.stopSent {
 		return nil
 	}
-	at := w.stopStepFor(int(w.op.cyclesDone.Load()))
+	cyc := int(w.op.cyclesDone.Load())
+	if w.cycleSeen != cyc+1 {
+		w.cycleSeen, w.cycleStart = cyc+1, w.Sim.Step // first look at this cycle with Run returned
+	}
+	at := w.stopStepFor(cyc)
+	if at >= 0 && cyc > 0 {
+		at += w.cycleStart // scripted positions of later cycles are relative to that cycle's start
+	}
 	due := false
 	if w.StopAfterBegun >= 0 && w.op.cyclesDone.Load() == 0 && len(w.Conns) > 0 {
 		if w.begunStep == 0 && w.Begun(false) > 0 {
@@ -328,7 +365,7 @@ func (w *World) clientActions() []Action {
 		switch {
 		case c.refused || c.vanished || c.closed:
 		case !c.dialed:
-			if (w.Sim.Step >= c.StartStep || w.IdleRounds > 0) && (!c.AfterOthers || w.othersSettled()) && (!w.WaitBound || w.Sim.Net.Bound(c.Addr)) {
+			if c.Cycle == w.curCycle() && (w.Sim.Step >= c.StartStep || w.IdleRounds > 0) && (!c.AfterOthers || w.othersSettled()) && (!w.WaitBound || w.Sim.Net.Bound(c.Addr)) {
 				acts = append(acts, Action{Key: key, Desc: "dial " + c.Addr, Do: func() { w.dial(c) }})
 			}
 		default:
@@ -661,9 +698,9 @@ func splitMetric(ln string) (map[string]string, float64) {
 }
 
 func (w *World) noteScrape(r *Request) {
-	sc := Scrape{Step: w.Sim.Step, SentLo: map[string]int{}, Begun: w.Begun(false)}
+	sc := Scrape{Cycle: r.Cycle, Step: w.Sim.Step, SentLo: map[string]int{}, Begun: w.Begun(false)}
 	for _, q := range w.reqs {
-		if !q.Metrics && q.Resp != nil {
+		if !q.Metrics && q.Resp != nil && q.Cycle == r.Cycle {
 			sc.SentLo[MethodLabel(q.Method)+"/"+strconv.Itoa(q.Resp.Status)]++
 		}
 	}
